@@ -55,6 +55,7 @@ func runC14(w *World, r *Report) {
 	r.Rule("C14/WIRING", "SkipSchemaValidation is bound to its own command-line flag and carried into the install started by upgrade --install", 2)
 	checkCarried(w, r, "C14/WIRING", []string{"SkipSchemaValidation"})
 	checkFlagBinding(w, r, "C14/WIRING", map[string]bool{"SkipSchemaValidation": true})
+	c14LintTemplates(w, r)
 }
 
 func isRenderFunc(f *ssa.Function) bool {
@@ -697,4 +698,58 @@ func dependenciesCalls(fn *ssa.Function) []ssa.Instruction {
 		}
 	}
 	return out
+}
+
+// c14LintTemplates: once the chart was loaded, the templates lint rule evaluates the schemas of the chart
+// and its subcharts (the gate) before it returns — except where preparing the values failed.
+func c14LintTemplates(w *World, r *Report) {
+	fn := w.Fn("pkg/lint/rules", "TemplatesWithSkipSchemaValidation")
+	if fn == nil {
+		r.Unk("C14/LINT", "templates/anchor", "-", "lint rules.TemplatesWithSkipSchemaValidation not found")
+		return
+	}
+	r.Fn(FuncName(fn))
+	g := FullGraph(fn)
+	var load, gate ssa.CallInstruction
+	var exempt []Edge
+	for _, c := range callInstrs(fn) {
+		f, _ := calleeOf(c.Common())
+		if f == nil {
+			continue
+		}
+		switch FuncName(f) {
+		case "pkg/chart/v2/loader.Load", "pkg/chart/v2/loader.LoadDir":
+			load = c
+		case "pkg/chart/v2/util.ToRenderValuesWithSchemaValidation":
+			gate = c
+		case "pkg/chart/v2/util.ProcessDependencies", "pkg/chart/v2/util.CoalesceValues":
+			_, bad := nilTestEdges(errResult(c))
+			exempt = append(exempt, bad...)
+		}
+	}
+	if load == nil || gate == nil {
+		r.Bad("C14/LINT", "templates/gate", w.Pos(fn.Pos()), "the templates lint rule no longer loads the chart and evaluates its schemas")
+		return
+	}
+	// the chart counts as loaded on the ok edges of the load's error (directly, or as reported through RunLinterRule)
+	oks := okEdgesOfCall(load)
+	bad := ""
+	for _, e := range oks {
+		if len(e.To().Instrs) == 0 {
+			continue
+		}
+		for _, b := range fn.Blocks {
+			if len(b.Instrs) == 0 || !g.Reachable()[b] {
+				continue
+			}
+			ret, ok := b.Instrs[len(b.Instrs)-1].(*ssa.Return)
+			if !ok {
+				continue
+			}
+			if ex, _ := g.PathExists(IPos{e.To(), -1}, posOf(ret), avoidInstrs(gate).withEdges(exempt...)); ex {
+				bad = w.InstrPos(ret)
+			}
+		}
+	}
+	r.Check(bad == "" && len(oks) > 0, "C14/LINT", "templates/gate-on-every-path", w.InstrPos(gate), "after the chart was loaded every return of the rule lies behind the schema gate (or a failed values preparation)", "the templates lint rule can return (at "+bad+") after loading the chart without having evaluated the schemas: values that violate a subchart's schema pass `helm lint`")
 }
